@@ -107,3 +107,11 @@ theorem runMixed_fold (step : σ → Bytes → Bytes × σ) (blocksFn : σ → L
     | many bs => simp [runMixed, Call.blocks, foldBlocks_append, ih, h]
 
 end Glue
+
+namespace Glue
+theorem foldBlocks_unit_map (f : Bytes → Bytes) (l : List Bytes) :
+    foldBlocks (fun (_ : Unit) b => (f b, ())) () l = (l.map f, ()) := by
+  induction l with
+  | nil => rfl
+  | cons x xs ih => simp only [foldBlocks, ih, List.map_cons]
+end Glue
